@@ -6,7 +6,8 @@ V = os.path.dirname(os.path.dirname(os.path.abspath(__file__)))
 CLAIMED = {
  # id: (technique, level text, level note, design ref)
  'C09': ('TLC exhaustive reachability of Container.tla over finite object universes; every (state, call) replayed on real '
-         'Database/Table objects; TLC trace validation of each (pre, call, post) triple against Container!Step',
+         'Database/Table objects; TLC trace validation of each (pre, call, post) triple against Container!Step; the repository\'s own '
+         'test-suite, the parser\'s phase-2 schedules and edit histories recorded at the container methods and validated against ContainerInv.tla',
          'Container.tla is model-checked (complete reachable graph of each universe, so histories of any length over it) '
          'against the declarative C09 invariants; the real container is driven along every transition (thorough) or a '
          'seeded sample (quick) plus TLC-chosen random walks, and TLC decides for each recorded triple whether it is a spec step',
@@ -27,21 +28,21 @@ CLAIMED['C05'] = ('TLC-generated documents parsed by /repo; identity-resolved pr
                   'by TLC at design level on every generated document',
                   'trusted: TLC, pv/project.py (identity resolution), pv/surface.py',
                   'DESIGN.md 2.3, 5 (C05)')
-CLAIMED['C06'] = ('TLC-generated single-fault documents (GenFault.tla: 13 fault kinds x position x spelling); design-level '
+CLAIMED['C06'] = ('TLC-generated single-fault documents (GenFault.tla: 14 fault kinds with near-miss variants x position x spelling); design-level '
                   'invariant Ruled; outcome class of the real parser compared by TLC with Doc!ParseDoc',
                   'each fault kind is an operator on documents in the specification; TLC proves on every generated instance that '
                   'the two-phase build model rejects it with the rule\'s error class, and validates the real parser\'s outcome '
                   '(exception class) for every printed form against that model',
                   'trusted: TLC, pv/surface.py, exception class names; messages are ignored',
                   'DESIGN.md 2.3, 5 (C06)')
-CLAIMED['C12'] = ('Session!ParseCall(route, bom, doc, opts): 8 entry points + 6 refused source types x BOM x options on TLC-generated '
+CLAIMED['C12'] = ('Session!ParseCall(route, bom, doc, opts): 8 entry points + 13 refused source types x BOM x options on TLC-generated '
                   'documents; outcome and renderer classes compared by TLC',
                   'the specification makes the outcome a function of the document and of the options the route accepts (RouteIndependent); '
                   'every route x BOM x option cell is executed for each generated document and validated by TLC',
                   'trusted: TLC, pv/c12.py route driver (UTF-8 files in a temp dir), pv/project.py',
                   'DESIGN.md 2.8, 5 (C12)')
 CLAIMED['C14'] = ('TLC-generated documents with declared comments (capture: compared with Doc!ParseDoc) and with extra comments at every '
-                  'line gap / line end (inertness: compared under Doc!MaskComments); output-side clauses by the renderer checks',
+                  'line gap / line end / marked place inside a line (inertness: compared under Doc!MaskComments); output-side clauses by the renderer checks',
                   'capture rule and masking are operators of Doc.tla; one comment at every gap of small documents exhaustively, several '
                   'at once on larger ones, in 14 shapes/contents',
                   'trusted: TLC, pv/surface.py comment placement, comment text compared line-wise trimmed',
@@ -106,7 +107,7 @@ CLAIMED['C16'] = ('Renderers.tla: seeded sessions of render / detach steps over 
                   'detached ones) and purity are specification operators evaluated by TLC on every step of every observed session',
                   'trusted: TLC, the partial custom renderers defined in pv/c16.py (mirrored by Renderers!CustomHandles)',
                   'DESIGN.md 2.8, 5 (C16)')
-CLAIMED['C07'] = ('Malformed.tla: 16 fault kinds applied at every line of TLC-generated documents (canonical print, lines labelled with kind, '
+CLAIMED['C07'] = ('Malformed.tla: 24 fault kinds applied at every line of TLC-generated documents (canonical print, lines labelled with kind, '
                   'enclosing block and features); outcome of the parse call validated by TLC for every pair ProvablyInvalid lists',
                   'the table of provably invalid (fault, site) pairs and the single allowed outcome are the specification; every fault is '
                   'applied at every structural position of every document; a returned database is reported as a leak with the text',
